@@ -36,7 +36,7 @@ impl FixtureDatabase {
         {
             return false;
         }
-        let Ok(content) = std::fs::read_to_string(module_path) else {
+        let Ok(content) = Self::read_source(module_path) else {
             debug!("Failed to read imported module {:?}", module_path);
             return false;
         };
@@ -221,7 +221,7 @@ impl FixtureDatabase {
                 // file on disk for a document that was closed), so that the fixtures this
                 // file provides through its imports are kept as well.
                 let previous_content = previous_content.or_else(|| {
-                    std::fs::read_to_string(&file_path)
+                    Self::read_source(&file_path)
                         .ok()
                         .map(std::sync::Arc::new)
                 });
